@@ -33,7 +33,8 @@ class World:
                        "inactive_level2", "refused_outside_region", "collective_left_early",
                        "rendezvous_send", "library_rates_distributed", "library_tensor_distributed",
                        "negative_length", "single_rank", "return_index_list", "return_index_array",
-                       "library_tensor_created_and_converted_at_different_levels", "same_list_object_distributed_again"]
+                       "library_tensor_created_and_converted_at_different_levels", "same_list_object_distributed_again",
+                       "reduced_array_not_c_contiguous"]
     required_faults = ["stalled_rank", "start_skew"]
     components = {
         "real": ["quantarhei.core.parallel: DistributedConfiguration, start/close_parallel_region, block_distributed_range/list/array, "
@@ -47,7 +48,8 @@ class World:
     assumptions = [
         "MPI transport is reliable and collectives are called in the same order by all ranks (SPMD); only schedules are varied",
         "ranks are threads of one process: per-rank DistributedConfiguration and per-rank input twins stand in for separate address spaces",
-        "allreduce is exercised with arrays of rank >= 2 (what the library itself reduces)",
+        "the fake communicator takes buffers the way mpi4py does (PyBUF_ANY_CONTIGUOUS): C- or Fortran-contiguous arrays as one "
+        "flat run of elements in memory order, anything else is refused with ValueError",
     ]
     rule = ("run = N in 1..17 simulated ranks x 1..6 phases (range/list/array with or without index, reduce/allreduce/none, "
             "collect, library rate-matrix loop, library Redfield tensor) under a seeded schedule with slow ranks and start skew; "
@@ -64,6 +66,7 @@ class World:
             r = rng.random()
             nest = rng.choice([0, 0, 0, 1, 1, 2]) if top == 1 else rng.choice([0, 1, 1, 1, 2])
             red = rng.choice(["allreduce", "allreduce", "reduce", "none"])
+            layout = rng.choice(["C", "C", "C", "F", "T", "S", "V"])
             if r < 0.45:
                 mode = rng.random()
                 if mode < 0.3:
@@ -76,15 +79,15 @@ class World:
                     ln = rng.randint(0, max(0, N - 1))   # shorter than the process count
                 else:
                     ln = rng.randint(0, 40)
-                phases.append({"op": "range", "start": start, "stop": start + ln, "nest": nest, "red": red})
+                phases.append({"op": "range", "start": start, "stop": start + ln, "nest": nest, "red": red, "layout": layout})
             elif r < 0.65:
                 n = rng.choice([0, 1, 2, 3, 5, 8, 13, 21, N, N + 1, max(0, N - 1), 2 * N])
                 collect = rng.random() < 0.4 and n >= N
                 phases.append({"op": "list", "n": n, "ri": collect or rng.random() < 0.5, "nest": nest, "red": red,
-                               "collect": collect, "same_object": rng.random() < 0.5})
+                               "collect": collect, "same_object": rng.random() < 0.5, "layout": layout})
             elif r < 0.82:
                 n = rng.choice([0, 1, 2, 3, 5, 8, 13, 21, N, N + 1, max(0, N - 1), 2 * N])
-                phases.append({"op": "array", "n": n, "ri": rng.random() < 0.5, "nest": nest, "red": red})
+                phases.append({"op": "array", "n": n, "ri": rng.random() < 0.5, "nest": nest, "red": red, "layout": layout})
             elif r < 0.97 or N > 4:
                 phases.append({"op": "rates", "Na": rng.randint(2, 5), "Nk": rng.randint(1, 9),
                                "nest": rng.choice([0, 0, 1]) if top == 0 else rng.choice([0, 1])})
@@ -238,6 +241,23 @@ class World:
                         acc = None
                     if acc is not None:
                         cfg = distributed_configuration()
+                        # the accumulator the caller happens to have: C-ordered, Fortran-ordered, a transposed view
+                        # or a strided section of a larger storage
+                        lay = ph.get("layout", "C")
+                        if lay == "F":
+                            acc = numpy.asfortranarray(acc)
+                        elif lay == "T":
+                            base = numpy.zeros(acc.shape[::-1], dtype=acc.dtype)
+                            base.T[...] = acc
+                            acc = base.T
+                        elif lay == "S":
+                            store = numpy.zeros(acc.shape + (2,), dtype=acc.dtype)
+                            store[..., 0] = acc
+                            acc = store[..., 0]
+                        elif lay == "V":
+                            acc = acc.reshape(-1).copy()        # a plain vector
+                        if lay != "C" and ph["red"] != "none":
+                            ctx.probe("reduced_array_not_c_contiguous")
                         if ph["red"] == "allreduce":
                             cfg.allreduce(acc, operation="sum")
                             rec["result"] = acc
@@ -357,6 +377,8 @@ class World:
                     who = [0]
                 else:
                     who = []
+                if ph.get("layout") == "V":
+                    serial = serial.reshape(-1)
                 for r in who:
                     res = recs[r]["result"]
                     check(res is not None and numpy.array_equal(numpy.asarray(res), serial), "reduced-equals-serial",
